@@ -370,6 +370,32 @@ def check_failures_end_the_stream(ck: Check) -> None:
     ck.expect_count("P9", "calls on the way from the socket to the message handler", n, 3)
 
 
+def check_socket_options(ck: Check) -> None:
+    """P8 (continued): the kernel hands over whatever bytes have arrived. A receive low-water mark (SO_RCVLOWAT) makes readiness depend
+    on how many bytes are waiting: the tail of a frame that the transport delivers on its own is never reported, and a complete message
+    sits in the kernel until more data arrives."""
+    import ast
+    n = 0
+    bad = []
+    for m in ck.repo.modules.values():
+        if not m.name.startswith("skepticoin.networking"):
+            continue
+        for node in ast.walk(m.tree):
+            if isinstance(node, ast.Call) and isinstance(node.func, ast.Attribute) and node.func.attr == "setsockopt":
+                n += 1
+                txt = " ".join(ast.unparse(a) for a in node.args)
+                if "RCVLOWAT" in txt or "SO_RCVBUF" in txt and False:
+                    bad.append((m.path, node.lineno, txt))
+    construct = "no receive low-water mark on peer sockets (the node reads whatever has arrived)"
+    if bad:
+        for path, line, txt in bad:
+            ck.violated("P8", construct, "setsockopt(%s): the last bytes of a frame that arrive on their own are not reported readable, the message "
+                        "they complete is delivered only when later data arrives — delivery depends on how the transport cut the stream" % txt[:60],
+                        "%s:%d" % (path, line))
+    else:
+        ck.ok("P8", construct, "%d setsockopt call(s) in the networking package" % n, "")
+
+
 def check(ck: Check) -> None:
     ck.explanations.append(
         "C11: chunk-independence follows from a syntactic discipline of the incremental parser. The checker decides premises P1–P7 on the "
@@ -380,3 +406,4 @@ def check(ck: Check) -> None:
     ck.run("P7b", "dispatch and initial state", lambda: check_dispatch(ck))
     ck.run("P1b", "socket -> parser plumbing", lambda: check_plumbing(ck))
     ck.run("P9", "a failure while a frame is handled ends the stream", lambda: check_failures_end_the_stream(ck))
+    ck.run("P8b", "readiness does not depend on how many bytes wait", lambda: check_socket_options(ck))
